@@ -150,7 +150,22 @@ pub fn make_ids<C: Suite>(spec: IdSpec, n: usize) -> Vec<Id<C>> {
     while out.len() < n {
         let style = if guard > 40 * n + 200 { IdStyle::SmallU16 } else { spec.style };
         let style = if guard > 200 * n + 2000 { IdStyle::Derived } else { style };
-        let c = id_candidate::<C>(style, &mut rng, out.len());
+        let mut c = id_candidate::<C>(style, &mut rng, out.len());
+        // full-width styles: one candidate in four is a SIBLING of an identifier already chosen - it differs from it
+        // only in the most significant bytes of the encoding (x + k * 2^(8*(len-8)))
+        if matches!(spec.style, IdStyle::Scalar | IdStyle::Mixed) && !out.is_empty() && rng.below(4) == 0 {
+            let base = out[rng.below(out.len() as u64) as usize];
+            let e = 8 * (sc_len::<C>() - 8);
+            let two64 = sc_u64::<C>(u64::MAX) + one::<C>();
+            let mut step = sc_u64::<C>(1u64 << (e % 64));
+            for _ in 0..e / 64 {
+                step = step * two64;
+            }
+            let k = sc_u64::<C>(1 + rng.below(5));
+            if let Ok(sib) = Id::<C>::new(base.to_scalar() + step * k) {
+                c = sib;
+            }
+        }
         guard += 1;
         if !out.contains(&c) {
             out.push(c);
@@ -661,7 +676,19 @@ pub fn commit_all<C: Suite>(
     let mut comms = BTreeMap::new();
     for (k, id) in signers.iter().enumerate() {
         let mut tape = Tape::random(seed ^ (0xc0_0000 + k as u64).wrapping_mul(0x2545_f491_4f6c_dd1d));
-        let (n, c) = frost::round1::commit(kps[id].signing_share(), &mut tape);
+        // every third signer takes its nonces from a pre-processed batch (one-round FROST): pair j of 2..4
+        let (n, c) = if (k as u64 + seed) % 3 == 1 {
+            let num = 2 + ((seed >> 9) as usize + k) % 3;
+            let j = ((seed >> 17) as usize + k) % num;
+            let (mut ns, mut cs) = frost::round1::preprocess(num as u8, kps[id].signing_share(), &mut tape);
+            if ns.len() == num && cs.len() == num {
+                (ns.swap_remove(j), cs.swap_remove(j))
+            } else {
+                frost::round1::commit(kps[id].signing_share(), &mut tape)
+            }
+        } else {
+            frost::round1::commit(kps[id].signing_share(), &mut tape)
+        };
         nonces.insert(*id, n);
         comms.insert(*id, c);
     }
